@@ -23,6 +23,8 @@ func exec(p cluster.Program, c *hx.Case) error {
 	c.LabelIf(st.KillsAfterCkpt > 0, "kill-after-checkpoint")
 	c.LabelIf(st.KillsDuringCkpt > 0, "kill-during-checkpoint")
 	c.LabelIf(st.JobRestarts > 0, "job-restart")
+	c.LabelIf(st.CkptsBeforeEnd > 0, "checkpoint-published-before-the-input-ended")
+	c.LabelIf(st.Ticks > 0, "tick")
 	c.LabelIf(st.NonIdentityAcks > 0, "non-identity-ack-order")
 	if st.KillsAfterCkpt > 0 || st.KillsDuringCkpt > 0 || (st.JobRestarts > 0 && st.Checkpoints > 1) {
 		c.NonTrivial()
